@@ -231,3 +231,54 @@ pub fn fmt_spec_mismatch<T: std::fmt::Display>(x: &T) -> Option<String> {
     }
     None
 }
+
+/// A `fmt::Write` sink with room for `0` bytes left: writing more fails. Printing into it must
+/// not disturb later printing.
+pub struct BoundedSink(pub usize);
+impl std::fmt::Write for BoundedSink {
+    fn write_str(&mut self, s: &str) -> std::fmt::Result {
+        if s.len() > self.0 {
+            self.0 = 0;
+            return Err(std::fmt::Error);
+        }
+        self.0 -= s.len();
+        Ok(())
+    }
+}
+
+/// Print `first` into sinks that fail after 0, 1 and 3 bytes, then return `second.to_string()`:
+/// a Display impl must not carry state from one (failed) call into the next.
+pub fn print_after_failed_prints<A: std::fmt::Display, B: std::fmt::Display>(first: &A, second: &B) -> String {
+    use std::fmt::Write;
+    for room in [0usize, 1, 3] {
+        let mut sink = BoundedSink(room);
+        let _ = write!(sink, "{}", first);
+    }
+    second.to_string()
+}
+
+/// Deserialize the JSON string `json` (a JSON *string* literal) through every serde_json front
+/// end: from_str, from_slice, from_reader, from_value, and from_str of the same string written
+/// with an escape (so that no front end can lend a slice of its input). A macro rather than a
+/// generic function: the harness has no direct dependency on serde.
+#[macro_export]
+macro_rules! json_front_ends {
+    ($t:ty, $json:expr) => {{
+        let json: &str = $json;
+        let mut out: Vec<(&'static str, Result<$t, String>)> = vec![];
+        out.push(("from_str", serde_json::from_str::<$t>(json).map_err(|e| e.to_string())));
+        out.push(("from_slice", serde_json::from_slice::<$t>(json.as_bytes()).map_err(|e| e.to_string())));
+        out.push(("from_reader", serde_json::from_reader::<_, $t>(json.as_bytes()).map_err(|e| e.to_string())));
+        match serde_json::from_str::<serde_json::Value>(json) {
+            Ok(v) => out.push(("from_value", serde_json::from_value::<$t>(v).map_err(|e| e.to_string()))),
+            Err(e) => out.push(("from_value", Err(e.to_string()))),
+        }
+        // escape the first character that may be escaped without changing the string's value
+        if let Some(pos) = json.char_indices().skip(1).find(|(_, c)| c.is_ascii() && *c != '"' && *c != '\\').map(|(i, _)| i) {
+            let c = json[pos..].chars().next().unwrap();
+            let escaped = format!("{}\\u{:04x}{}", &json[..pos], c as u32, &json[pos + 1..]);
+            out.push(("from_str(escaped)", serde_json::from_str::<$t>(&escaped).map_err(|e| e.to_string())));
+        }
+        out
+    }};
+}
